@@ -95,4 +95,33 @@ def needDepth {α : Type} (p : Prog α) (bs : Bytes) : Nat := (run (depthRec sli
 /-- Tracked memory usage of the unlimited decode of `bs` (what `used_mem()` ends at). -/
 def usedMem {α : Type} (p : Prog α) (bs : Bytes) : Nat := (run (memRec sliceInput) p (bs, 0)).2.2
 
+
+/-! ### A byte input with an arbitrary `remaining_len` report (the wrappers must not depend on it) -/
+
+/-- What the inner input answers to `remaining_len()`: the truth, nothing, a constant, or a capped
+    value. -/
+inductive LenMode where
+  | exact
+  | unknown
+  | const (k : Nat)
+  | capped (k : Nat)
+  deriving Repr, DecidableEq
+
+/-- A slice-like (`short = false`) or reader-like (`short = true`: a failed read consumes what was
+    left) byte input whose `remaining_len` follows `mode`. -/
+def hintInput (mode : LenMode) (short : Bool) : InputOps Bytes where
+  remainingLen s :=
+    match mode with
+    | .exact => (.ok (some s.length), s)
+    | .unknown => (.ok none, s)
+    | .const k => (.ok (some k), s)
+    | .capped k => (.ok (some (min s.length k)), s)
+  read n s := if short then ioInput.read n s else sliceRead n s
+  readByte s := match s with
+    | [] => (.err, s)
+    | b :: rest => (.ok b, rest)
+  descend s := (.ok (), s)
+  ascend s := s
+  onAlloc _ s := (.ok (), s)
+
 end Scale
